@@ -475,6 +475,40 @@ pub fn run(ctx: &Ctx) -> i32 {
             }
             Err((m, at)) => acc.violation("directory:analyze_dir-panicked", json!({"panic": m, "at": at})),
         }
+        // history: the probe rewritten in place by a same-length sibling (same inode, time stamps put back, as a restore tool
+        // does) and the directory analysed again in this process
+        if !twice && namesake.is_none() && rng.chance(1, 2) {
+            let stem = fs.names[fi].split('~').next().unwrap_or("").to_string();
+            let cands: Vec<usize> = (0..nfiles)
+                .filter(|x| *x != fi && fs.texts[*x].len() == fs.texts[fi].len() && fs.texts[*x] != fs.texts[fi] && fs.names[*x].split('~').next() == Some(stem.as_str()) && fs.base[*x].values().all(|v| v.is_some()))
+                .collect();
+            if !cands.is_empty() {
+                let vi = *rng.pick(&cands);
+                let d = if in_subdir { format!("{}/{}", root, subdir_name) } else { root.clone() };
+                let path = format!("{}/Probe.sol", d);
+                if let Ok(md) = std::fs::metadata(&path) {
+                    let _ = std::fs::write(&path, &fs.texts[vi]);
+                    if let (Ok(f), Ok(m), Ok(a)) = (std::fs::OpenOptions::new().write(true).open(&path), md.modified(), md.accessed()) {
+                        let _ = f.set_times(std::fs::FileTimes::new().set_modified(m).set_accessed(a));
+                    }
+                    acc.cov("directory:probe-rewritten-in-place-same-length-time-stamps-restored");
+                    if let Ok(found2) = observed_findings_inprocess(&root, &pats) {
+                        for dd in &pats {
+                            let exp = fs.base[vi].get(dd.name()).cloned().flatten().unwrap_or_default();
+                            let got: Lines = found2.iter().filter(|f| f.0 == dd.name() && f.1 == "Probe.sol").flat_map(|f| f.2.iter().copied()).collect();
+                            acc.eval();
+                            if got != exp {
+                                acc.violation(
+                                    format!("directory-rewritten-in-place:{}", dd.name()),
+                                    json!({"file_before": fs.names[fi], "file_after": fs.names[vi], "detector": dd.name(), "baseline_lines_of_the_new_content": exp, "observed_lines": got,
+                                           "note": "same path, same inode, same length, time stamps restored; second analyze_dir in one process"}),
+                                );
+                            }
+                        }
+                    }
+                }
+            }
+        }
         let _ = std::fs::remove_dir_all(&root);
     });
 
